@@ -40,6 +40,10 @@ func stateAnnotation(s *Scanner, c byte) *jerr.JApiError {
 func stateMultilineAnnotationTextStart(s *Scanner, c byte) *jerr.JApiError {
 	s.foundAt(s.curIndex, AnnotationBegin)
 	s.step = stateMultilineAnnotation
+	if c == AnnotationDelimiterPart {
+		// The asterisk before this slash opened the annotation, it cannot close it.
+		return nil
+	}
 	return stateMultilineAnnotation(s, c)
 }
 
